@@ -9,7 +9,7 @@ na = {
 checks = {
  # id: (level, design_ref, technique, text, note)
  "C04": ("exploration", "5/C04", "deterministic simulation: seeded segmentation x schedule search + enumerated 1-/2-cut positions, oracle = sent frame list (reference codec)",
-         "Real reader/parser of service runs on a simulated socket; every run compares the messages the server extracted (ids, serials, phones, bodies at delivery time, timeliness at quiescence) with the frames the simulated terminals sent, under seeded random cuts (bytewise, coalesced, inside escape pairs, before delimiters, >1023 B frames) and enumerated single/double cut positions of short streams. Sampled, not exhaustive beyond the enumerated cuts.",
+         "Real reader/parser of service runs on a simulated socket; every run compares the messages the server extracted (ids, serials, phones, bodies at delivery time, timeliness at quiescence) with the frames the simulated terminals sent, under seeded random cuts (bytewise, coalesced, inside escape pairs, before delimiters, >1023 B frames) and enumerated single/double cut positions of short streams, a read that completes a pending frame and carries 68 more, and a frame longer than one read with more than 5 s before its rest. Sampled, not exhaustive beyond the enumerated cuts.",
          "trusts the AST rewriter, simnet's chunk model of TCP reads, the hand-written reference codec"),
 }
 checks.update({
@@ -17,21 +17,21 @@ checks.update({
          "Real sub-package reassembly on live simulated connections: transfers with permuted, duplicated and impossible-numbered packets, two concurrent message IDs, ordinary frames in between, every segmentation style; the oracle replays the environment's deliveries through a reference reassembly table and demands exactly one complete message per completely delivered transfer, byte-identical to the concatenation of the sent packet bodies, not before the last missing packet and not later than the next quiescent point, plus exactly one correct reply. Sampled.",
          "trusts rewriter, simnet, reference codec; totals up to 12 (quick) / 64 (thorough)"),
  "C06": ("exploration", "5/C06", "deterministic simulation + sequential reference server model over the recorded history",
-         "Whole conversations (every default 0x0xxx/0x1xxx ID, unsupported IDs, both header versions, sub-packaged messages, 1-4 concurrent connections, all segmentations and schedules) against a reference model: reply kind per message, echo fields, authentication result against the code the server issued in this run, addressing, reply order, platform serials 0,1,2,... over every frame written incl. a >65536-reply wrap-around run, read/write callbacks exactly once with the bytes on the socket. Sampled.",
+         "Whole conversations (every default 0x0xxx/0x1xxx ID, unsupported IDs, both header versions, sub-packaged messages, 1-4 concurrent connections, all segmentations and schedules) against a reference model: reply kind per message, echo fields, authentication result against the code the server issued in this run, addressing, reply order, platform serials 0,1,2,... over every frame written incl. a >65536-reply wrap-around run, read/write callbacks exactly once with the bytes on the socket; some connections carry frames under another phone number or header version (addressing judged per request), too-short 2019 0x0102 and cut-short 0x0100 bodies, idle gaps that make the server write re-requests (which take part in the numbering), single-packet 'transfers'. Sampled.",
          "reference reply table transcribed from the property text/standard; body of 0x1003/0x1212 acknowledgements not inspected"),
  "C09": ("exploration", "5/C09", "deterministic simulation: reader/writer interleavings (writer-starving strategies) with retained-message snapshots",
          "Every message handed to a callback is retained with a deep copy; after every later callback and at the end of the run (after later reads, after the connection closed) the retained message must equal its copy; replies and reassembled bodies must be those of their own message. Schedules let the reader run ahead of the writer up to the channel capacities.",
          "plain memory orderings between two yield points are C18's subject, not visible here"),
  "C14": ("exploration", "5/C14", "deterministic simulation on the synctest fake clock + reference reassembly/timer model",
-         "Transfers with plan-chosen missing sets, idle gaps just below/above 5 s and 60 s on the simulated clock, repeated re-request rounds, partial resupply, two concurrent IDs; every 0x8003 the server writes is parsed by the reference codec and must be due (idle > 5 s at inbound data, at most once per 5 s), name the first packet's serial and exactly the missing numbers ascending; expired transfers never complete, resupplied ones do. Sampled; N up to 24 (quick) / 255 (thorough).",
+         "Transfers with plan-chosen missing sets, idle gaps just below/above 5 s and 60 s on the simulated clock, repeated re-request rounds, partial resupply, two concurrent IDs; every 0x8003 the server writes is parsed by the reference codec and must be due (idle > 5 s at inbound data, at most once per 5 s), name the first packet's serial and exactly the missing numbers ascending; expired transfers never complete, resupplied ones do. Every delivery counts as inbound data, also the first segment of a split frame; a missing packet may arrive unasked as the first data after the silence. Sampled; N up to 24 (quick) / 255 (thorough).",
          "exact 5 s / 60 s boundary instants are avoided by the generator (property does not say which way they fall)"),
 })
 checks.update({
  "C11": ("exploration", "5/C11", "deterministic simulation + porcupine linearizability check of the recorded join/leave/send history against a key->connection map, plus direct callback rules",
-         "2-3 keys, 3-8 connections competing for them (duplicate-key connects, FIN/RST, reconnects, connections that never join) and 1-6 concurrent SendActiveMessage callers under all scheduling strategies; invoke/return events are stamped with the simulator's global step number and checked with porcupine (Illegal = violation, Unknown = inconclusive and counted); direct rules: refused connection closed by the server, one join and one leave callback with the same key, not-exist returned without simulated time passing.",
+         "2-3 keys, 3-8 connections competing for them (duplicate-key connects, FIN/RST, reconnects, connections that never join) and 1-6 concurrent SendActiveMessage callers under all scheduling strategies; invoke/return events are stamped with the simulator's global step number and checked with porcupine (Illegal = violation, Unknown = inconclusive and counted); direct rules: refused connection closed by the server, one join and one leave callback with the same key, not-exist returned without simulated time passing, a connection whose first handled message (complete or a sub-package) was delivered is announced, a terminal that reconnects after the server closed its connection (corrupt frame) finds its key free.",
          "histories are capped at 40 operations; a send whose command never reached a socket (routed connection died first) is dropped from the history as unobservable"),
  "C12": ("exploration", "5/C12", "deterministic simulation with the synctest clock: concurrent callers x reactive terminal models (prompt/late/duplicate/unknown-serial/no response) x schedules (incl. clock jitter), oracle over the recorded history",
-         "Every command is identified on the socket by its unique body, so the caller's own platform serial is known independently of the code; each call must return exactly once, with the terminal's frame that echoes that serial (never another caller's, never an invented or reused one) or with a timeout no earlier than the configured duration and, in runs without injected clock jitter, exactly at write time + timeout; a response delivered before the deadline must win; ordinary traffic in between must satisfy the C06 reply model incl. consecutive platform serials.",
+         "Every command is identified on the socket by its unique body, so the caller's own platform serial is known independently of the code; each call must return exactly once, with the terminal's frame that echoes that serial (never another caller's, never an invented or reused one) or with a timeout no earlier than the configured duration and, in runs without injected clock jitter, exactly at write time + timeout; a response delivered before the deadline must win; ordinary traffic in between must satisfy the C06 reply model incl. consecutive platform serials. The reactive terminals answer with minimal or content-bearing bodies (parameter lists with empty strings, id lists), as one frame or as 2-3 sub-packages (the caller must get the complete message), with a careless id field in general responses; timeouts include 0 (= the documented 3 s) and commands outside the handler table.",
          "0x9003/0x1003 (no serial on the wire) is not used with several outstanding commands"),
  "C13": ("fault_enumeration", "5/C13", "deterministic simulation: single-fault enumeration (FIN / RST / write failure at every scheduler step of FIFO baselines) + seeded random disconnect points and schedules; oracles = no panic in any goroutine, bounded liveness of every caller",
          "For each baseline command scenario every step index of its canonical schedule is used once as the instant of a peer FIN, once of a RST and once of a write failure on the command's connection (exhaustive over single fault points of those baselines); on top, seeded runs with 0-7 queued/outstanding commands, equal timeouts expiring together, clock jitter and all strategies. A panic anywhere is a violation (recorded instead of killing the process); after faults stop and the clock has passed every timeout, every SendActiveMessage call - including a probe call for an unknown key that detects a wedged session manager - must have returned.",
@@ -50,7 +50,7 @@ checks.update({
 })
 checks.update({
  "C10": ("fault_enumeration", "5/C10", "deterministic simulation of both servers: seeded hostile byte streams / adversarial frames / lifecycle faults next to well-behaved sessions, plus single-fault enumeration (FIN/RST of the hostile connection at every step of FIFO baselines); oracles = no panic anywhere, well-behaved sessions' own oracles, fresh connections served",
-         "JT808 server and attachment server run together; 1-3 well-behaved sessions carry their full reply oracles while 1-3 hostile connections send random bytes, bit-flipped/truncated/extended frames, valid frames with adversarial header and body fields for every supported ID (counts exceeding items, impossible package numbers, names filling the body, adversarial data-packet names/offsets/lengths), with commands outstanding so malformed responses reach the writer's parsers, with default and parse-everything handlers and the default file handler, closing or resetting at arbitrary points. Any recovered panic is a violation; afterwards a fresh connection to each server must be served. Enumeration: for each baseline every scheduler step once with FIN and once with RST on the hostile connection.",
+         "JT808 server and attachment server run together; 1-3 well-behaved sessions carry their full reply oracles while 1-3 hostile connections send random bytes, bit-flipped/truncated/extended frames, valid frames with adversarial header and body fields for every supported ID (counts exceeding items, impossible package numbers, names filling the body, adversarial data-packet names/offsets/lengths), with commands outstanding so malformed responses reach the writer's parsers, with default and parse-everything handlers and the default file handler, closing or resetting at arbitrary points. Hostile traffic also includes uploads with 255-513 holes, a client that floods and resets without reading (its number must be free for a well-behaved terminal afterwards), transient accept failures of the listeners. Any recovered panic is a violation, a run that never becomes quiescent is one (server_never_settles); afterwards a fresh connection to each server must be served. Enumeration: for each baseline every scheduler step once with FIN and once with RST on the hostile connection.",
          "a panic is recorded by the goroutine wrapper instead of killing the process (in production it would); hostile streams are sampled"),
 })
 checks.update({
@@ -63,7 +63,7 @@ checks.update({
          "The C06, C09, C11, C12, C13 scenarios plus a shared-header scenario (first message = first packet of a transfer, re-request while commands are issued) run in a -race build of the simulator; because the scheduler's hand-offs are invisible to the detector it evaluates the application's own happens-before relation (channels, go, sync.Once, and the Write->Read ordering real sockets give) on each schedule. A report counts only if on both sides the innermost frame that is not runtime/stdlib/transparent shim lies in service, attachment, protocol or in the callback that stands in for user handler code; each report is confirmed by replaying its schedule in a fresh process. Identity of a finding = unordered pair of application functions.",
          "relies on RaceDisable ignoring synchronisation but not memory events; schedules sampled; ~8x slower than DET mode, so fewer runs"),
  "C20": ("exploration", "5/C20", "deterministic simulation: frames generated by the terminal simulator are sent to the live simulated server; the server's reply bytes are compared with ExpectedReply for the platform serial it used",
-         "PARTIAL claim (DESIGN.md section 0): decides 'the predicted reply equals the reply the real server sends' for all three versions, phones of 1-12 (20) digits incl. ones whose template checksum is 0x7e/0x7d, default and custom bodies, under random segmentation and schedules, with a serial wrap-around run in the thorough tier. The decode/serial precondition on every generated frame (reference codec) rides along; the pure 'body re-encodes identically' clause is not decided here.",
+         "PARTIAL claim (DESIGN.md section 0): decides 'the predicted reply equals the reply the real server sends' for all three versions, phones of 1-12 (20) digits incl. ones whose template checksum is 0x7e/0x7d, default and custom bodies, under random segmentation and schedules, with a serial wrap-around run (2013 in both tiers, 2019 in the thorough tier). Riding along on every generated frame: decode, header and serial by the reference codec; a custom frame carries exactly the body it was given; a frame with the simulator's default body parses with a fresh value of its type and re-encodes identically. The re-encode clause for arbitrary custom bodies is not decided here.",
          "pairs replies with requests in order using the C06 reference model; a run in which the server disagrees with that model is C06's business and is skipped here"),
 })
 pending = {}
